@@ -7,7 +7,7 @@ OUT=${COVDIR:-/var/tmp/rlbox-cov}
 rm -rf $OUT; mkdir -p $OUT
 INC=/repo/code/include
 FL="-std=c++17 -I$INC -Isim -O0 -g -fprofile-instr-generate -fcoverage-mapping -DGUESTLIB_DIR=\"$PWD/build\" -w"
-make -s build/guestlib.o build/libguest0.so build/libguest1.so build/sched.o
+make -s build/guestlib.o build/libguest0.so build/libguest1.so build/libguest2.so build/libguest3.so build/sched.o
 bins=()
 build() { # name src extra...
   local name=$1 src=$2; shift 2
@@ -22,10 +22,13 @@ EXTRA="build/guestlib.o" build invoke invoke
 EXTRA="-Wl,--wrap=malloc" build toctou toctou
 EXTRA="-Wl,--wrap=malloc -Wl,--wrap=free" build bulk bulk
 EXTRA="build/guestlib.o" build transition.both transition -DTR_HOOKS -DTR_TIMING
-EXTRA="build/sched.o" build threads threads
+EXTRA="build/sched.o -Wl,--wrap=pthread_mutex_lock -Wl,--wrap=pthread_mutex_unlock" build threads threads
+EXTRA="" build abi.wide abi -DSIM_WIDE_INT
+EXTRA="build/guestlib.o" build transition.wide transition -DTR_HOOKS -DTR_TIMING -DSIM_WIDE_INT
+EXTRA="-Wl,--wrap=malloc -Wl,--wrap=free" build bulk.wide bulk -DSIM_WIDE_INT
 wait
 objs=""
-for b in apptoken mem mem.p64 callback callback.tls invoke toctou bulk transition.both threads; do
+for b in apptoken mem mem.p64 callback callback.tls invoke toctou bulk transition.both threads abi.wide transition.wide bulk.wide; do
   n=$N; [ $b = toctou ] && n=$((N/4))
   LLVM_PROFILE_FILE=$OUT/$b.profraw $OUT/$b --seed 99 --count $n --enum-count 600 --regress --det-every 0 --outdir $OUT >/dev/null 2>&1 || true
   objs="$objs -object $OUT/$b"
